@@ -339,3 +339,45 @@ func VerifC13_JSONText() {
 	gt, isText := verifTextOf(got)
 	zzverif.Assert(isText && gt == s, "a text value does not survive its JSON form")
 }
+
+// VerifC13_JSONKeys: "a JSON document read with parse_json and written back
+// with json() is JSON-equivalent to the original", for the *keys* of an
+// object: a document {"<key>": 1, "a": {"<key>": "x"}} whose key is an
+// arbitrary name of up to 11 characters out of [a-z_] (the solver chooses the
+// characters; jsonparser scans them), read, written back and read again, has
+// both properties under the same keys at both levels.
+// cover: short-key, long-key, both-levels
+func VerifC13_JSONKeys() {
+	key := zzverif.String("key", 11)
+	for i := 0; i < len(key); i++ {
+		zzverif.Assume(key[i] >= '_') // '_', then '`' (excluded), then a..z
+		zzverif.Assume(key[i] <= 'z')
+		zzverif.Assume(key[i] != '`')
+	}
+	zzverif.Assume(len(key) > 0 && key != "a")
+	if len(key) < 11 {
+		zzverif.Cover("short-key")
+	} else {
+		zzverif.Cover("long-key")
+	}
+	doc := `{"` + key + `": 1, "a": {"` + key + `": "x"}}`
+	obj, isObj := JSONToXValue([]byte(doc)).(*XObject)
+	zzverif.Assert(isObj, "a JSON object was not read as an object")
+	back, xerr := ToXJSON(obj)
+	zzverif.Assert(xerr == nil, "an object read from JSON could not be written back as JSON")
+	again, isObj := JSONToXValue([]byte(back.Native())).(*XObject)
+	zzverif.Assert(isObj, "an object written back as JSON does not read as an object")
+	// the reserved key under which goflow itself serialises an object's default value
+	zzverif.Known("C13-json-default-key", key == "__default__")
+	zzverif.Note("document", doc, " written back as ", back.Native())
+	v, found := again.Get(key)
+	n, isNum := v.(*XNumber)
+	zzverif.Assert(again.Count() == 2 && found && isNum && n.Equals(NewXNumberFromInt(1)), "a JSON document written back by json() lost or changed a top-level property")
+	inner, _ := again.Get("a")
+	io, isObj := inner.(*XObject)
+	zzverif.Assert(isObj && io.Count() == 1, "a JSON document written back by json() lost or changed a nested property")
+	iv, found := io.Get(key)
+	it, isText := verifTextOf(iv)
+	zzverif.Assert(found && isText && it == "x", "a JSON document written back by json() lost or changed a nested property")
+	zzverif.Cover("both-levels")
+}
